@@ -11,10 +11,12 @@ from harness import tier
 tier.praatio()
 print("praatio imports from /repo: ok")
 PY
-for m in spec/*.tla; do
-  java -cp /opt/veriftools/tla/tla2tools.jar tla2sany.SANY "$m" > /tmp/praatio-verif-sany.$$ 2>&1 || { cat /tmp/praatio-verif-sany.$$; rm -f /tmp/praatio-verif-sany.$$; exit 1; }
+cd spec
+for m in *.tla; do
+  java -cp /opt/veriftools/tla/tla2tools.jar:/opt/veriftools/tla/CommunityModules-deps.jar tla2sany.SANY "$m" > /tmp/praatio-verif-sany.$$ 2>&1 || { cat /tmp/praatio-verif-sany.$$; rm -f /tmp/praatio-verif-sany.$$; exit 1; }
   if grep -q -i "error" /tmp/praatio-verif-sany.$$; then cat /tmp/praatio-verif-sany.$$; rm -f /tmp/praatio-verif-sany.$$; exit 1; fi
 done
 rm -f /tmp/praatio-verif-sany.$$
+cd ..
 mkdir -p evidence
 echo "setup ok"
